@@ -926,8 +926,9 @@ func TestVerifC21(t *testing.T) {
 		}})
 	}
 	// (d) chains up to length 10 x upper layers x declared lengths
-	fullLen := mc.Pick(c, 3, 4)
-	chains := c21Chains(fullLen, 10)
+	fullLen := mc.Pick(c, 3, 6)
+	maxLen := mc.Pick(c, 10, 14)
+	chains := c21Chains(fullLen, maxLen)
 	lenModes := mc.Pick(c, []int{0, 2}, []int{0, 1, 2})
 	const chunk = 64
 	for lo := 0; lo < len(chains); lo += chunk {
@@ -959,7 +960,7 @@ func TestVerifC21(t *testing.T) {
 	}
 	c.Set("v6_chains", len(chains))
 	c.Set("v6_chains_exhaustive_up_to_length", fullLen)
-	c.Set("v6_chain_max_length", 10)
+	c.Set("v6_chain_max_length", maxLen)
 	c.Set("v6_upper_layer_kinds", len(uppers))
 	c.Set("output_capacities", c21BaseCaps)
 	c.Set("output_capacities_note", "every packet additionally runs with capacity = expected reply size - 1 and = expected reply size; large products use capacity 2000 plus those two")
